@@ -48,6 +48,10 @@ structure Cfg where
   universeFixed : Bool := false   -- so are predeclared identifiers (`nil`, `string`, `len`, …) (568d1b4)
   resultsFixed : Bool := false    -- result names are dropped when one is `f` / `param_…` / `innerParam_…` (18449d4)
   resultOuterFixed : Bool := false -- uncurry: … and when an inner RESULT bears the name of an outer parameter
+  qualFixed : Bool := false       -- a parameter named like a package that qualifies a type of the signature is unusable (F102)
+  /-- not a variant bit but an input: the package names that qualify types printed in the signature at hand
+  (`qualifiers(sig)`; the model has type ids, not type texts, so the caller supplies them) -/
+  quals : List Name := []
   deriving DecidableEq, Repr, Inhabited
 
 /-- the generator as it is at the pinned commit -/
@@ -55,7 +59,7 @@ def Cfg.current : Cfg := {}
 /-- all defect classes repaired -/
 def Cfg.fixed : Cfg :=
   { unnamedFixed := true, shadowFixed := true, crossFixed := true, voidFixed := true, prefixFixed := true,
-    universeFixed := true, resultsFixed := true, resultOuterFixed := true }
+    universeFixed := true, resultsFixed := true, resultOuterFixed := true, qualFixed := true }
 
 def blank : Name := ['_']
 def fName : Name := ['f']
@@ -90,13 +94,14 @@ def errName : Name := ['e', 'r', 'r']
 /-- `unusable`: a parameter that cannot be forwarded under its own name. At the pinned commit that was
 only `_`; every later repair added a clause (one model bit each, so that the model is the code of every
 stage): unnamed; `f` and `err`; the names handed out by the renaming itself (`param_…`, `innerParam_…`);
-the predeclared identifiers. -/
+the predeclared identifiers; the package names that qualify the types of the signature. -/
 def unusable (cfg : Cfg) (n : Name) : Bool :=
   n == blank ||
   (cfg.unnamedFixed && n == []) ||
   (cfg.shadowFixed && (n == fName || n == errName)) ||
   (cfg.prefixFixed && (paramPrefix.isPrefixOf n || innerPrefix.isPrefixOf n)) ||
-  (cfg.universeFixed && goUniverse.contains n)
+  (cfg.universeFixed && goUniverse.contains n) ||
+  (cfg.qualFixed && cfg.quals.contains n)
 
 /-- `hasBlankIdentifier` -/
 def hasBlank (cfg : Cfg) (ps : List Param) : Bool := ps.any (fun p => unusable cfg p.name)
